@@ -131,6 +131,18 @@ EXTRA2 = {
     'C17': 'The detection output file left on disk is the library\'s decision (OUTFILE, shared with C06).',
     'C19': 'The tagged loader only narrows what unittest selected (-k, method prefix) and keeps no class-level memory between loaders (LOADER, NOSHARED).',
 }
+EXTRA3 = {
+    'C12': 'exec_command evaluated with a stand-in subprocess on three runs (exit 3, cannot start, not UTF-8): one start of the command, the five values in the order setUpClass unpacks them, strict decoding (ORDER, STRICT).',
+    'C16': 'CSVWMetadata.read evaluated: metadata addressed by bare name, relative or absolute path or a dictionary locates the same CSV file (LOCATE).',
+    'C17': 'Verification.__str__ evaluated for every report option: the counts printed by the command are the counts of the result (REPORT).',
+}
+_SPEC = ('source-to-source specialisation before the rules run: helpers that are new with respect to the recorded function names '
+         'are read in place at their call sites, wrapper delegation / operator.* / lambdas / constant tables folded (sa/specialise.py)')
+for _k, _t in EXTRA3.items():
+    CLAIMS[_k]['text'] = CLAIMS[_k]['text'].rstrip() + ' ' + _t
+for _k in CLAIMS:
+    if _SPEC not in CLAIMS[_k]['technique']:
+        CLAIMS[_k]['technique'] = CLAIMS[_k]['technique'] + '; ' + _SPEC
 for _k, _t in EXTRA2.items():
     CLAIMS[_k]['text'] = CLAIMS[_k]['text'].rstrip() + ' ' + _t
     if _EVAL not in CLAIMS[_k]['technique']:
